@@ -472,6 +472,11 @@ def main():
     except ValueError:
         seed = 1
     tier = a.tier if a.tier in ("quick", "thorough") else "quick"
+    # one run per property at a time: runs of the same property share work/<id> (overlay, binaries, statistics)
+    import fcntl
+    os.makedirs(os.path.join(VERIF, "work"), exist_ok=True)
+    lock = open(os.path.join(VERIF, "work", ".lock-" + a.prop), "w")
+    fcntl.flock(lock, fcntl.LOCK_EX)
     sys.exit(run_prop(a.prop, tier, seed, replay=a.replay, only_unit=a.unit))
 
 
